@@ -287,11 +287,11 @@ package dt
 // ---------------------------------------------------------------------------
 
 // coupling of index and order list (the set is initialised: hash != nil)
-//@ pred sinv(s *Set) = s != nil && s.hash != nil && (s.list == nil ==> (forall k: int :: haskey(s.hash, k) ==> s.hash[k] == nil)) && (s.list != nil ==> lwf(s.list) && len(s.list.elems) == len(s.hash)
+//@ pred setinv(s *Set) = s != nil && s.hash != nil && (s.list == nil ==> (forall k: int :: haskey(s.hash, k) ==> s.hash[k] == nil)) && (s.list != nil ==> lwf(s.list) && len(s.list.elems) == len(s.hash)
 //@ |  && (forall i: int :: 0 <= i && i < len(s.list.elems) ==> haskey(s.hash, cast(s.list.elems[i], "*Element").item) && s.hash[cast(s.list.elems[i], "*Element").item] == s.list.elems[i])
 //@ |  && (forall k: int :: haskey(s.hash, k) ==> s.hash[k] != nil && member(s.list, s.hash[k]) && cast(s.hash[k], "*Element").item == k))
 // a set that may not have been used yet (hash == nil: empty)
-//@ pred spre(s *Set) = s != nil && (s.hash == nil ? (s.list == nil || (lwf(s.list) && len(s.list.elems) == 0)) : sinv(s))
+//@ pred setpre(s *Set) = s != nil && (s.hash == nil ? (s.list == nil || (lwf(s.list) && len(s.list.elems) == 0)) : setinv(s))
 
 // lock / with: the optional mutex is read through an atomic.Value and a generic
 // type switch, outside the engine's subset. ASSUMED: lock() returns the set's
@@ -312,24 +312,24 @@ package dt
 
 //@ func (*Set).Len
 //@   props C18
-//@   requires spre(s)
+//@   requires setpre(s)
 //@   modifies s.hash
-//@   ensures result == len(s.hash) && (old(s.hash) == nil ==> result == 0) && sinv(s)
+//@   ensures result == len(s.hash) && (old(s.hash) == nil ==> result == 0) && setinv(s)
 
 //@ func (*Set).Check
 //@   props C18
-//@   requires spre(s)
+//@   requires setpre(s)
 //@   modifies s.hash
-//@   ensures result == haskey(s.hash, in) && (old(s.hash) == nil ==> !result) && (old(s.hash) != nil ==> result == old(haskey(s.hash, in))) && sinv(s)
+//@   ensures result == haskey(s.hash, in) && (old(s.hash) == nil ==> !result) && (old(s.hash) != nil ==> result == old(haskey(s.hash, in))) && setinv(s)
 
 // AddCheck: reports whether the value was already a member; afterwards it is;
 // no other membership changes; a new member of an ordered set goes to the end
 // of the order, re-adding a present value does not move it.
 //@ func (*Set).AddCheck
 //@   props C18
-//@   requires spre(s)
+//@   requires setpre(s)
 //@   modifies s.hash, mapelems(s.hash), s.list.root, List.length, Element.list, Element.next, Element.prev, List.elems, List.lastIns, Element.idx
-//@   ensures sinv(s) && haskey(s.hash, in)
+//@   ensures setinv(s) && haskey(s.hash, in)
 //@   ensures result == (old(s.hash) != nil && old(haskey(s.hash, in)))
 //@   ensures othersk: forall k: int :: k != in ==> (haskey(s.hash, k) == (old(s.hash) != nil && old(haskey(s.hash, k))))
 //@   ensures size: len(s.hash) == (old(s.hash) == nil ? 0 : old(len(s.hash))) + (result ? 0 : 1)
@@ -341,9 +341,9 @@ package dt
 // the order and every other element keeps its relative position.
 //@ func (*Set).DeleteCheck
 //@   props C18
-//@   requires spre(s)
+//@   requires setpre(s)
 //@   modifies s.hash, mapelems(s.hash), List.length, Element.list, Element.next, Element.prev, List.elems, List.lastIns, Element.idx
-//@   ensures sinv(s) && !haskey(s.hash, in)
+//@   ensures setinv(s) && !haskey(s.hash, in)
 //@   ensures result == (old(s.hash) != nil && old(haskey(s.hash, in)))
 //@   ensures othersk: forall k: int :: k != in ==> (haskey(s.hash, k) == (old(s.hash) != nil && old(haskey(s.hash, k))))
 //@   ensures size: len(s.hash) == (old(s.hash) == nil ? 0 : old(len(s.hash))) - (result ? 1 : 0)
